@@ -8,7 +8,7 @@ import FontcModel.Names
            corr   = each stage of the model (fallback chain, allocation with the *recorded* hash order, fvar, STAT)
                     reproduces the implementation's output of that stage;
            oracle = the property on the implementation's output: one result for all runs/processes, no panic, every
-                    referenced id has a non-empty Windows record carrying the source's string, ids < 256 only as
+                    referenced id has a Windows record carrying the source's (non-empty) string, ids < 256 only as
                     subfamily id 2/17 of a default-located instance, one id per string, ids 1-6/16/17 follow the
                     documented fallback rules, source records survive.
   `c18e2e` real fonts: the same property read off name / fvar / STAT / GSUB feature parameters.
@@ -91,7 +91,7 @@ instance : BEq FvarOut := ⟨fun a b => a.axisIds == b.axisIds && a.instIds == b
 /-- how many registrations the allocator can make at most -/
 def allocBound (x : Input) : Nat := x.labels.length + 2 * x.insts.length
 
-/-- does the source supply a font-specific id inside the range the allocator hands out? -/
+/-- does the source supply a font-specific id inside the range the allocator handed out before commit ba69b97? -/
 def sourceIdInAllocRange (x : Input) : Bool :=
   x.names.any fun p => 256 ≤ p.1.id && p.1.id < 256 + allocBound x
 
@@ -102,7 +102,8 @@ def Checks.add (c : Checks) (ok : Bool) (what : String) : Checks := if ok then c
 /-- the property on one run's output (independent of the model's allocation) -/
 def checkRun (x : Input) (r : Run) : Checks :=
   let c : Checks := {}
-  let winRec (id : Nat) (s : Str) : Bool := r.names.any fun p => p.1.id == id && p.1.platform == 3 && p.2 == s && !p.2.isEmpty
+  -- a Windows record with this id carrying exactly the source's string (hence non-empty whenever the source's label is)
+  let winRec (id : Nat) (s : Str) : Bool := r.names.any fun p => p.1.id == id && p.1.platform == 3 && p.2 == s
   let isVariable := !x.labels.isEmpty
   let insts := effInsts x
   -- source records survive
@@ -191,7 +192,9 @@ def handle : Handler := fun s =>
     let mBuilt := builtTable (b.build vendor)
     let corrBuild := sameTable mBuilt built
     -- stage 2-4 per run: allocation under the recorded iteration order, fvar and STAT on the implementation's names
+    -- the source supplies font-specific ids; `clash` = inside the range the pre-ba69b97 allocator handed out again
     let clash := sourceIdInAllocRange x
+    let srcFontSpecific := built.any fun p => 256 ≤ p.1.id
     let corrRun (r : Run) : Bool × Bool × Bool :=
       let okOrder := r.order.length == built.length && r.order.all fun k => (alookup k built).isSome
       (okOrder && sameTable (alloc r.order x) r.names, resEq (fvar r.names x) r.fvar, resEq (stat r.names x) r.stat)
@@ -199,8 +202,7 @@ def handle : Handler := fun s =>
     let (a1, f1, s1) := match alt with
       | some r => corrRun r
       | none => (true, true, true)
-    -- with a source id inside the allocator's range the result also depends on a hash order the harness cannot observe
-    let corrAlloc := clash || (a0 && a1)
+    let corrAlloc := a0 && a1
     let corr := corrBuild && corrAlloc && f0 && f1 && s0 && s1
     -- oracle
     let c0 := checkRun x run0
@@ -214,7 +216,8 @@ def handle : Handler := fun s =>
     let oracle := fails.isEmpty
     let cls :=
       if !oracle then
-        (if clash then "source-font-specific-id-clobbered"
+        (if srcFontSpecific && (fails.contains "source-record-lost" || fails.contains "fvar-panic" || fails.contains "stat-panic")
+           then "source-font-specific-id-clobbered"
          else if !deterministic then "name-id-order-dependent"
          else fails.headD "")
       else if !corr then
@@ -226,9 +229,10 @@ def handle : Handler := fun s =>
     let repeated := let ns := (effInsts x).map (·.name) ++ labels; ns.eraseDups.length < ns.length
     let ambiguous := (effInsts x).any fun ni => ni.atDefault &&
       (built.any fun p => p.2 == ni.name && isSub p.1.id) && (built.any fun p => p.2 == ni.name && !isSub p.1.id)
-    let nt := !labels.isEmpty && !(effInsts x).isEmpty && (collide || repeated)
+    let emptyLabel := labels.any (·.isEmpty) || insts.any fun ni => ni.name.isEmpty || ni.ps == some []
+    let nt := !labels.isEmpty && !(effInsts x).isEmpty && (collide || repeated) && !emptyLabel
     let tags := [s!"axes{labels.length}", s!"insts{min insts.length 4}"] ++
-      (if labels.isEmpty then ["static"] else []) ++
+      (if labels.isEmpty then ["static"] else []) ++ (if emptyLabel then ["empty-label(outside-domain)"] else []) ++
       (if collide then ["inst-name-collides"] else []) ++ (if repeated then ["repeated-string"] else []) ++
       (if ambiguous then ["ambiguous-2/17"] else []) ++
       (if clash then ["src-id-in-alloc-range"] else if built.any (fun p => 256 ≤ p.1.id) then ["src-font-specific-id"] else []) ++
